@@ -1,7 +1,83 @@
 import PydlVerif.Model.JsonUtil
+import PydlVerif.Model.Flags
 open Lean
 namespace PydlVerif.Driver.C07
+open PydlVerif PydlVerif.Flags
 
-def handle (_j : Json) : Except String Json := throw "C07: no model operations yet"
+def errJ : Err → Json
+  | .KeyError => Json.str "KeyError"
+  | .OverflowError => Json.str "OverflowError"
+
+def resJ {α} (f : α → Json) : R α → Json
+  | .ok v => Json.mkObj [("ok", f v)]
+  | .error e => Json.mkObj [("err", errJ e)]
+
+def rowOf (j : Json) : Except String Row := do
+  match ← J.arr j with
+  | #[f, b, l] => pure ⟨← J.str f, ← J.nat b, ← J.str l⟩
+  | _ => throw "row: need [flag, bit, label]"
+
+def aliasOf (j : Json) : Except String Alias := do
+  match ← J.arr j with
+  | #[a, f] => pure ⟨← J.str a, ← J.str f⟩
+  | _ => throw "alias: need [alias, flag]"
+
+def namesOf (j : Json) : Except String Names :=
+  match j with
+  | Json.str s => pure (.one s)
+  | _ => do pure (.many (← J.list J.str j))
+
+def valOf (j : Json) : Except String Val := do
+  let k ← J.fStr j "k"
+  let v ← J.fInt j "v"
+  match k with
+  | "int" => pure (.pyint v)
+  | "i64" => pure (.i64 v)
+  | "u64" => if v < 0 then throw "u64 negative" else pure (.u64 v.toNat)
+  | _ => throw s!"val kind {k}"
+
+def groupJ (g : Group) : Json :=
+  J.ofList (fun (x : String × Nat) => Json.arr #[Json.str x.1, J.ofNat x.2]) g
+
+def dbJ (db : Db) : Json :=
+  J.ofList (fun (x : String × Group) => Json.arr #[Json.str x.1, groupJ x.2]) db
+
+def existJ : ExistRet → Json
+  | .l l => Json.bool l
+  | .lf l f => Json.arr #[Json.bool l, Json.bool f]
+  | .lw l w => Json.arr #[Json.bool l, J.ofList Json.bool w]
+  | .lfw l f w => Json.arr #[Json.bool l, Json.bool f, J.ofList Json.bool w]
+
+def query (db : Db) (q : Json) : Except String Json := do
+  let t ← J.fStr q "t"
+  let g ← J.fStr q "g"
+  match t with
+  | "val" =>
+    let ns ← namesOf (← J.fld q "names")
+    pure (resJ (fun (v : BitVec 64) => J.ofNat v.toNat) (flagval db g ns.toList))
+  | "name" =>
+    let v ← valOf (← J.fld q "v")
+    if (← J.fBool q "concat") then pure (resJ Json.str (flagnameConcat db g v))
+    else pure (resJ (J.ofList Json.str) (flagname db g v))
+  | "exist" =>
+    let ns ← namesOf (← J.fld q "names")
+    let e := flagexist db g ns.toList
+    pure (Json.mkObj [("ok", existJ (e.shape (← J.fBool q "fe") (← J.fBool q "we")))])
+  | _ => throw s!"C07: unknown query {t}"
+
+def handle (j : Json) : Except String Json := do
+  let op ← J.fStr j "op"
+  let rows ← J.list rowOf (← J.fld j "rows")
+  let aliases ← J.list aliasOf (← J.fld j "aliases")
+  match op with
+  | "db" => pure (resJ dbJ (setMaskbits rows aliases))
+  | "q" =>
+    match setMaskbits rows aliases with
+    | .error e => pure (Json.mkObj [("err", errJ e)])
+    | .ok db =>
+      let qs ← J.arr (← J.fld j "qs")
+      let out ← qs.mapM (query db)
+      pure (Json.mkObj [("db", dbJ db), ("out", Json.arr out)])
+  | _ => throw s!"C07: unknown op {op}"
 
 end PydlVerif.Driver.C07
